@@ -152,7 +152,7 @@ def run(facts, R):
         R.check(own_list and owned and in_cycle(rb, i), "alias-pairing", rb.path, "forward mapping removed only for own keys still pointing here",
                 "aliases.remove(%s) under %s" % (key[:100], [z[-70:] for z in g]), t.get("span"), "key from alias_index.remove(id), guarded by aliases.get(key) == Some(id)")
     rows = value_rows(rb, rs, facts, 0)
-    R.check(len(rows) == 1 and "remove#1(" in rows[0][1] and ".peers, arg2)" in rows[0][1], "alias-pairing", rb.path, "returns the removed handle", "remove returns %s" % rows, rb.span)
+    R.check(len(rows) >= 1 and all("remove#1(" in v and ".peers, arg2)" in v for g, v in rows), "alias-pairing", rb.path, "returns the removed handle", "remove returns %s" % rows, rb.span)
 
     # lookups read through one guard: get_by = peers.get(aliases.get(key)?)
     gb = facts.body(PR + "::get_by")
